@@ -148,6 +148,12 @@ def gen_message(rng, kind=None, size="small", tsig_ok=False):
                 m.absent(owner)
             elif op == "absent_rrset":
                 m.absent(owner, rr.rdtype)
+        # the data-less forms (delete a name / an RRset, prerequisites) are class-and-type-only records: TTL 0 on the wire
+        # whatever TTL attribute the object carries (a set derived from zone data and emptied keeps its old TTL attribute)
+        for sec in (m.prerequisite, m.update):
+            for rr0 in sec:
+                if len(rr0) == 0 and rng.random() < 0.4:
+                    rr0.ttl = rng.choice((300, 7200, 2**31 - 1))
         m.origin = None  # render absolute; the zone name stays in the zone section
         info["ops"] = n_ops
     else:
